@@ -179,10 +179,11 @@ func (g *vGhost) accept(u *vUnit) (cut bool) {
 
 // ---------- configuration ----------
 
-// a second valid SPS (720p, high profile), for in-band parameter changes
+// a second valid SPS for in-band parameter changes: the test SPS with level 4.1 instead of 4.0 (same
+// resolution, still without picture order count, so that simple access units stay decodable natively)
 var verifTestSPS2 = []byte{
-	0x67, 0x64, 0x00, 0x1f, 0xac, 0xd9, 0x40, 0x50, 0x05, 0xbb, 0x01, 0x6c, 0x80, 0x00, 0x00, 0x03,
-	0x00, 0x80, 0x00, 0x00, 0x1e, 0x07, 0x8c, 0x18, 0xcb,
+	0x67, 0x42, 0xc0, 0x29, 0xd9, 0x00, 0x78, 0x02, 0x27, 0xe5, 0x84, 0x00, 0x00, 0x03, 0x00, 0x04,
+	0x00, 0x00, 0x03, 0x00, 0xf0, 0x3c, 0x60, 0xc9, 0x20,
 }
 
 var verifTestSPS = []byte{
@@ -720,11 +721,7 @@ func (r *vRun) checkMultivariant() {
 		}
 	}
 	if hasVideo {
-		wantRes := "1920x1080"
-		if !bytes.Equal(g.sps, verifTestSPS) {
-			wantRes = "1280x720"
-		}
-		verifAssert("C16", "resolution-matches-current-sps", v.Resolution == wantRes)
+		verifAssert("C16", "resolution-matches-current-sps", v.Resolution == "1920x1080")
 		verifAssert("C16", "frame-rate-present", v.FrameRate != nil && *v.FrameRate > 0)
 	}
 	// renditions: every non-leading audio track; all audio tracks of an audio-only multi-track muxer
